@@ -401,6 +401,27 @@ def binop_plan_table(F, rep):
                                ("Pow", want_ty == "Int"))
                     else:
                         c.cell(key + ":emit", ekind, "Infix")
+    # operands whose type the IR does not know (lambda parameters, interop values): `%`, `//`, `/` must still go
+    # through the Python-semantics helpers, never through Rust's infix operators
+    for op, fam in (("Mod", "py_mod"), ("FloorDiv", "py_floor_div"), ("Div", "py_div")):
+        for (lt, rt) in (("Unknown", "Int"), ("Int", "Unknown"), ("Unknown", "Unknown"), ("Unknown", "Float")):
+            left = texpr(enum(KIND, "Var", [UNKNOWN, UNKNOWN]), lt)
+            right = texpr(enum(KIND, "Var", [UNKNOWN, UNKNOWN]), rt)
+            key = "%s,%s,%s:untyped" % (op, lt, rt)
+            ev = Evaluator(F, call_hook=quote_hook)
+            try:
+                res = ev.run(f, [("ref", {0: enum(BINOP, op)}, {"l": 0, "p": []}),
+                                 ("ref", {0: left}, {"l": 0, "p": []}), ("ref", {0: right}, {"l": 0, "p": []})])
+            except OutOfFragment as e:
+                c.out_of_fragment(key, e)
+                continue
+            emit = res[2].get("emit") if res[0] == "struct" else None
+            ekind = emit[2] if emit and emit[0] == "enum" else None
+            payload = emit[3][0] if emit and emit[0] == "enum" and emit[3] else None
+            path = "::".join(x for x in (payload[1] if payload and payload[0] == "tokens" else []) if x != "colon2")
+            c.cell(key + ":helper", (ekind, path.startswith("incan_stdlib::num::" + fam)), ("StdlibCall", True),
+                   note="untyped operands would get Rust truncation / remainder-of-dividend and a Rust division "
+                        "panic instead of ZeroDivisionError")
     c.done(13 * 2 * 4 * 2)
 
 
